@@ -16,22 +16,27 @@ PROP_MODULES = [
     "UnifexModel.Props.C19_detach",
     "UnifexModel.Props.C19_canary",
     "UnifexModel.Props.C19_sor",
+    "UnifexModel.Props.C19_after",
 ]
 
 CANCELLABLE = ["c_race", "c_early", "c_noarb", "c_sync", "c_sync_early", "c_complete_during_start"]
 DETACH = ["d_race", "d_detach", "d_sync"]
 CANARY = ["k_guard", "k_dtors"]
 SOR = ["s_two", "s_ext"]
+AFTER = ["c_after_start", "c_noarb_after_start"]   # A and B act only after start() returned: model cancellableafter
 RAW = ["r_race", "r_early"]   # C++20: cancellable{create_raw_sender<>(event-dispatch lambda)} = configurations c_race / c_early
 
 
 def run(tier, seed, replay=None):
     parts = [
-        AtomicPart("cancellable", SCN, LIB, "cancellable", CANCELLABLE),
+        # always_report_rejected: the model admits the failing histories of the two known defects, so a
+        # history it does NOT admit is news even in a scenario where those monitors fire
+        AtomicPart("cancellable", SCN, LIB, "cancellable", CANCELLABLE, always_report_rejected=True),
+        AtomicPart("cancellable_after_start", SCN, LIB, "cancellableafter", AFTER),
         AtomicPart("detach_on_cancel", SCN, LIB, "detachoncancel", DETACH),
         AtomicPart("canary", SCN, LIB, "canary", CANARY, quick=dict(preemptions=3, max_execs=4000)),
         AtomicPart("stop_on_request", SCN, LIB, "stoponrequest", SOR),
-        AtomicPart("create_raw_sender", SCN, LIB, "cancellable", RAW, std="gnu++20"),
+        AtomicPart("create_raw_sender", SCN, LIB, "cancellable", RAW, std="gnu++20", always_report_rejected=True),
     ]
     # debugging aid (mutation experiments): VERIF_C19_PARTS=cancellable,canary runs only those parts
     only = [x for x in os.environ.get("VERIF_C19_PARTS", "").split(",") if x]
@@ -39,7 +44,7 @@ def run(tier, seed, replay=None):
         parts = [p for p in parts if p.name in only]
     return run_check(
         "C19", tier, seed, PROP_MODULES, parts,
-        rule="every schedule (DFS, preemption-bounded, plus random/PCT walks) of 15 scenarios on the real cancellable<>/try_complete, "
+        rule="every schedule (DFS, preemption-bounded, plus random/PCT walks) of 17 scenarios on the real cancellable<>/try_complete, "
              "detach_on_cancel, canary and stop_on_request templates under the controlled scheduler (harness nested op / child / "
              "receiver that destroys and poisons the operation state on completion, tracked heap for the detached child state); "
              "a case = one distinct observable history; non-trivial = admitted by the Lean model of the same name",
